@@ -6,6 +6,6 @@ CONSTANTS
   MCConfig = 0
   Scenarios <- LiveThoroughScenarios
 SPECIFICATION MCSpecSet
-INVARIANT QueueInvariants
+INVARIANTS AtMostOnce ExactlyOnce LaneBound BgBound CompletionOnce OutputBeforeCompletion StatusTable ChildrenReaped
 PROPERTY Termination
 PROPERTY CancelReaps
